@@ -139,6 +139,12 @@ pub fn tag_name() -> BoxedStrategy<String> {
     prop_oneof![
         1 => long_ident("a", "abcdefghijklmnopqrstuvwxyzABCXYZ0189_"),
         90 => prop::sample::select(vec!["a", "b", "c", "dis", "id", "site", "val", "ver", "empty", "n", "m", "t", "f", "na", "inf", "nan", "e", "x1", "camelCase", "with_under", "z9_"]).prop_map(String::from),
+        // names that mean something to Haystack itself (grids, records, defs, display, history)
+        30 => prop::sample::select(vec![
+            "err", "errTrace", "errType", "mod", "created", "deprecated", "name", "def", "tag", "navName", "disMacro", "disKey", "siteRef", "equipRef", "spaceRef", "point", "equip", "space",
+            "tz", "unit", "kind", "curVal", "curStatus", "his", "hisEnd", "hisStart", "meta", "cols", "rows", "is", "lib", "doc", "mandatory", "notInherited", "transitive", "reciprocalOf", "tagOn", "of", "children",
+            "incomplete", "more", "limit", "view", "action", "ts", "v0", "v1",
+        ]).prop_map(String::from),
         60 => "[a-z][A-Za-z0-9_]{0,8}",
     ]
     .boxed()
@@ -167,6 +173,8 @@ pub fn xstr_type() -> BoxedStrategy<String> {
     prop_oneof![
         1 => long_ident("X", "abcxyzABC019_"),
         80 => "[A-Z][A-Za-z0-9_]{0,8}".prop_filter("C( is the coord literal", |s| s != "C"),
+        // type names spelled like the upper-case keywords of the grammar (legal XStr types all the same)
+        6 => prop::sample::select(vec!["M", "N", "NA", "R", "T", "F", "INF", "NaN", "Bin", "Coord", "Z", "UTC", "Inf", "Nan", "NA2", "INF_", "Str", "Number", "Grid"]).prop_map(String::from),
     ]
     .boxed()
 }
@@ -214,6 +222,8 @@ pub fn number(cfg: GenCfg) -> BoxedStrategy<RVal> {
             6 => (finite_f64(), unit_ids()).prop_map(|(f, u)| RVal::Num(f.to_bits(), Some(u))),
             1 => nonfinite.clone().prop_map(|f| RVal::Num(f.to_bits(), None)),
             1 => (nonfinite, unit_ids()).prop_map(|(f, u)| RVal::Num(f.to_bits(), Some(u))),
+            // the default unit (no identifiers): `get_unit_or_default` hands it out for unknown names
+            1 => finite_f64().prop_map(|f| RVal::Num(f.to_bits(), Some(vec![]))),
         ]
         .boxed()
     }
@@ -326,6 +336,22 @@ pub fn datetime(cfg: GenCfg) -> BoxedStrategy<RVal> {
             // the whole range of four digit years, incl. local mean time offsets with seconds before standard time
             1 => (0..n, zones::T_WIDE_MIN..zones::T_WIDE_MAX, frac_nanos()).prop_map(|(zi, s, n)| make_dt(zones::wide_scope_zones()[zi].id, s, n)),
             1 => (0..n, -5_000_000_000i64..T_MIN, frac_nanos()).prop_map(|(zi, s, n)| make_dt(zones::wide_scope_zones()[zi].id, s, n)),
+            // the first and the last day of the four-digit-year range *in local time* of the zone
+            1 => (0..n, any::<bool>(), 0i64..86_400, frac_nanos()).prop_map(|(zi, low, d, n)| {
+                const LOCAL_MIN: i64 = -62_167_219_200; // 0000-01-01T00:00:00
+                const LOCAL_MAX: i64 = 253_402_300_799; // 9999-12-31T23:59:59
+                let z = zones::wide_scope_zones()[zi];
+                let local = if low { LOCAL_MIN + d } else { LOCAL_MAX - d };
+                let guess = zones::offset_at(&z.tz, local) as i64;
+                let secs = local - zones::offset_at(&z.tz, local - guess) as i64;
+                // keep the *written* local date (offset rounded to minutes) inside the range
+                let written = secs + zones::written_offset(zones::offset_at(&z.tz, secs)) as i64;
+                if (LOCAL_MIN..=LOCAL_MAX).contains(&written) {
+                    make_dt(z.id, secs, n)
+                } else {
+                    make_dt(z.id, if low { LOCAL_MIN + 100_000 } else { LOCAL_MAX - 100_000 }, n)
+                }
+            }),
         ]
         .boxed()
     } else {
@@ -439,9 +465,14 @@ pub fn grid_of(cfg: GenCfg, inner: BoxedStrategy<RVal>) -> BoxedStrategy<RGrid> 
     let min_cols = if cfg.wf { 1 } else { 0 };
     let cols = btree_map(name(cfg), col_meta, min_cols..=5).prop_shuffle_cols();
     let meta = prop_oneof![
-        3 => Just(None),
-        1 => Just(Some(RDict::new())),
-        3 => dict_of(cfg, inner.clone(), 3).prop_map(Some),
+        12 => Just(None),
+        4 => Just(Some(RDict::new())),
+        12 => dict_of(cfg, inner.clone(), 3).prop_map(Some),
+        // the format's own reserved word as an ordinary meta tag, with the very values the format uses for it
+        1 => (dict_of(cfg, inner.clone(), 2), prop::sample::select(vec!["3.0", "2.0", "3.0 "])).prop_map(|(mut d, v)| {
+            d.insert("ver".into(), RVal::Str(v.into()));
+            Some(d)
+        }),
     ];
     let cell = prop_oneof![
         2 => Just(Cell::Missing),
